@@ -110,8 +110,10 @@ LEVEL_TEXT = ('Coq theorems over ALL schedules (induction on the step relation o
               "worker's hand and the closures run are exactly those handed to Execute, each once (c17_pool_joined, "
               'c17_pool_drained, c17_pool_worker_exit, c17_pool_invariant), exactly n closures handed in and run '
               '(c17_pool_submitted, c17_pool_drained_count); wait queues exact in every scenario (c17_waitq_exact: asleep on c '
-              'iff in the queue of c, no duplicates); NOT proved: the pool wake-up invariant (no deadlock '
-              'of JoinAll), more than two workers; ThreadPool with two-stage jobs (closures that hand a follow-up to the same '
+              'iff in the queue of c, no duplicates); no lost wake-up and no deadlock of JoinAll for the pool, with and without two-stage jobs (c17_pool_wakeup, '
+              'c17_pool_no_sleeper_after_shutdown, c17_pool_no_deadlock, c17_pool_join_not_stuck, c17_poolre_wakeup, '
+              'c17_poolre_no_sleeper_after_shutdown, c17_poolre_no_deadlock; termination under fairness is not stated); NOT proved: '
+              'more than two workers; ThreadPool with two-stage jobs (closures that hand a follow-up to the same '
               'pool, also after m_shutdown is set): conservation, lock discipline and the drained clause are proved for all '
               'schedules (c17_poolre_conserved, c17_poolre_joined, c17_poolre_drained: multiset equality of handed-in and run '
               'closures, uniqueness of ids not proved; also checked per schedule: end=undrained); Future<T>/Future<void> copy-assignment (self, shared, '
